@@ -60,11 +60,10 @@ def exempt : List (String × String) := [
 ]
 
 /-- Recorded OPEN findings (known_findings.json): unsynchronised shared fields of the current tree.
-    F18d, F18f, F18g, F18h were repaired by `fix:` commits and are no longer listed: they must satisfy the
+    F18b, F18d, F18f, F18g, F18h were repaired by `fix:` commits and are no longer listed: they must satisfy the
     discipline now. -/
 def knownRacy : List (String × String × String) := [
   ("F18a", "lunarcontext.lunarContext", "transactionalContext"),
-  ("F18b", "streams.Stream", "apiStreams"),
   ("F18c", "routing.HandlingDataManager", "stream"),
   ("F18e", "utils.MemoryCache", "currentCacheSize")
 ]
@@ -86,7 +85,9 @@ def requiredCoverage : List (String × String × String × List String) := [
   ("lunarcontext.memoryState", "contextMemory", "mutex",
      ["AtomicIncWindow", "AtomicWindowReset", "AtomicWindowResetIn", "AtomicSAddWithMaxValuesAllowed",
       "AtomicIncr", "AtomicDecr"]),
-  ("limit.RateLimitState", "groupsStateByLimiter", "mutex", []),
+  -- get-or-create of the per-key state/queue must be ONE critical section (look up, create, store):
+  ("limit.RateLimitState", "groupsStateByLimiter", "mutex", ["getLimiterState"]),
+  ("remedies.StrategyBasedQueuePlugin", "queues", "queuesMutex", ["OnRequest"]),
   ("limit.singleRateLimitState", "counter", "mutex", ["TryToIncrement"]),
   ("limit.singleRateLimitState", "windowEndTime", "mutex", []),
   ("limit.singleRateLimitState", "spillover", "mutex", []),
